@@ -79,7 +79,8 @@ def make_values(shape, vk="f", base=1, nan=(), enc="coord"):
     if nan and vk == "f":
         flat = out.reshape(-1)
         for k in nan:
-            flat[k] = np.nan
+            if k < flat.size:
+                flat[k] = np.nan
     return out
 
 
